@@ -177,7 +177,14 @@ func (c *Ctx) rulesC08(a *coreAnchors) {
 	}
 	// processHandlers select
 	var waitSel *ssa.Select
-	for _, b := range ph.Blocks {
+	var phBlocks []*ssa.BasicBlock
+	for _, hf := range c.hostedFns(ph) {
+		if hf == rte || c.hostedBy(hf, rte) {
+			continue // the recovery path is not part of the wait
+		}
+		phBlocks = append(phBlocks, hf.Blocks...)
+	}
+	for _, b := range phBlocks {
 		for _, ins := range b.Instrs {
 			sel, ok := ins.(*ssa.Select)
 			if !ok {
@@ -207,7 +214,7 @@ func (c *Ctx) rulesC08(a *coreAnchors) {
 		}
 	}
 	c.check(waitSel != nil, "C08.rec", "processHandlers waits on handlerPanic, handlerEnd and the timer together", ph.Pos(), "no select with all three cases: a panic or a stall would not be noticed")
-	rsites := c.sitesIn(ph, funcKey(rte))
+	rsites := c.innerSites(ph, funcKey(rte))
 	c.check(len(rsites) == 1, "C08.rec", "processHandlers calls recoverToErr once", ph.Pos(), fmt.Sprintf("%d sites", len(rsites)))
 	for i, s := range rsites {
 		inCase := selectCaseOf(s, func(st *ssa.SelectState) bool { return st.Dir == types.RecvOnly && loadOfField(st.Chan) == fHP })
@@ -227,7 +234,7 @@ func (c *Ctx) rulesC08(a *coreAnchors) {
 	fRErr := c.field(pm, "recoveryData", "err")
 	var accStore, compStore, prepend ssa.Instruction
 	var restarts []ssa.Instruction
-	for _, s := range c.sitesIn(rte, "method:Bool.Store") {
+	for _, s := range c.innerSites(rte, "method:Bool.Store") {
 		args := s.Common().Args
 		if len(args) == 2 {
 			if fieldOf(args[0]) == fAcc {
@@ -268,29 +275,69 @@ func (c *Ctx) rulesC08(a *coreAnchors) {
 		}
 		okAll := true
 		pos := st.ins[0].Pos()
-		for _, r := range returnsOf(rte) {
-			early := false
-			for _, g := range guardsOf(r.Block()) {
-				if gAtomicLoadTruth("", a.fDisposing, true).Match(g) {
-					early = true
-				}
-				if st.name != "go handlerLoop()" && gCallTruth("", "Mutation", "IsCalled", true).Match(g) {
-					early = true
-				}
-			}
-			if early {
-				continue
-			}
-			dom := false
-			for _, in := range st.ins {
-				if dominatesInstr(in, r) {
-					dom = true
+		// no path from the entry to a return avoids the step, other than
+		// through the disposing == true outcome (and, for the bookkeeping
+		// steps, the "exception already being handled" outcome). A step that
+		// lives in a private helper is represented by the helper's call, and
+		// must come before every return of that helper.
+		var marks []ssa.Instruction
+		for _, in := range st.ins {
+			if in.Parent() != rte {
+				for _, hr := range returnsOf(in.Parent()) {
+					if !dominatesInstr(in, hr) {
+						okAll = false
+						pos = hr.Pos()
+					}
 				}
 			}
-			if !dom {
-				okAll = false
-				pos = r.Pos()
+			if si := c.standIn(rte, in); si != nil {
+				marks = append(marks, si)
 			}
+		}
+		isMark := func(x ssa.Instruction) bool {
+			for _, mk := range marks {
+				if mk == x {
+					return true
+				}
+			}
+			return false
+		}
+		earlyEdge := func(b *ssa.BasicBlock, si int) bool {
+			ifi, ok := b.Instrs[len(b.Instrs)-1].(*ssa.If)
+			if !ok {
+				return false
+			}
+			g := Guard{Cond: ifi.Cond, Pol: si == 0, If: ifi}
+			if gAtomicLoadTruth("", a.fDisposing, true).Match(g) {
+				return true
+			}
+			return st.name != "go handlerLoop()" && gCallTruth("", "Mutation", "IsCalled", true).Match(g)
+		}
+		seenB := map[*ssa.BasicBlock]bool{}
+		var dfs func(b *ssa.BasicBlock)
+		dfs = func(b *ssa.BasicBlock) {
+			if seenB[b] {
+				return
+			}
+			seenB[b] = true
+			for _, ins := range b.Instrs {
+				if isMark(ins) {
+					return
+				}
+				if r, ok := ins.(*ssa.Return); ok {
+					okAll = false
+					pos = r.Pos()
+					return
+				}
+			}
+			for si, s := range b.Succs {
+				if !earlyEdge(b, si) {
+					dfs(s)
+				}
+			}
+		}
+		if len(rte.Blocks) > 0 {
+			dfs(rte.Blocks[0])
 		}
 		c.check(okAll, "C08.must", "recoverToErr performs "+st.name, pos, "must precede every return of recoverToErr except the disposing exit (a return is reached without it: after a panic the handler loop goroutine is gone, so skipping the restart wedges the machine)")
 	}
@@ -314,6 +361,18 @@ func (c *Ctx) rulesC08(a *coreAnchors) {
 				if p, ok := x.(*ssa.Parameter); ok && d < 3 {
 					if av := c.hostedArg(p, rte); av != x {
 						return fromRErr(av, d+1)
+					}
+				}
+				// the error handed back by a private helper of recoverToErr
+				if hc, ok := x.(*ssa.Call); ok && d < 3 {
+					if cal := hc.Call.StaticCallee(); cal != nil && cal != rte && len(cal.Blocks) > 0 && c.hostedBy(cal, rte) {
+						for _, r := range returnsOf(cal) {
+							for _, rv := range retVals(r) {
+								if fromRErr(rv, d+1) {
+									return true
+								}
+							}
+						}
 					}
 				}
 				return false
@@ -385,10 +444,10 @@ func (c *Ctx) rulesC08(a *coreAnchors) {
 		c.check(argsOK, "C08.must", "exception mutation carries the panic's message", prepend.Pos(), "AException.Err must derive from the recovered data (r.err)")
 	}
 	// recoverFinalPhase iff latestHandlerIsFinal
-	for i, s := range c.sitesIn(rte, funcKey(a.recoverFinal)) {
-		c.requireGuards("C08.must", "recoverToErr>recoverFinalPhase"+nth(i), s, gFieldTruth("latestHandlerIsFinal", fLatestFinal, true))
+	for i, s := range c.innerSites(rte, funcKey(a.recoverFinal)) {
+		c.requireGuardsHosted("C08.must", "recoverToErr>recoverFinalPhase"+nth(i), s, rte, gFieldTruth("latestHandlerIsFinal", fLatestFinal, true))
 	}
-	c.check(len(c.sitesIn(rte, funcKey(a.recoverFinal))) == 1, "C08.must", "recoverToErr rolls back the final phase", rte.Pos(), "exactly one recoverFinalPhase call expected")
+	c.check(len(c.innerSites(rte, funcKey(a.recoverFinal))) == 1, "C08.must", "recoverToErr rolls back the final phase", rte.Pos(), "exactly one recoverFinalPhase call expected")
 	c.floor("C08.must", 9)
 
 	// --- C08.val
@@ -458,7 +517,26 @@ func (c *Ctx) rulesC08(a *coreAnchors) {
 				if g.Pol == neg {
 					continue
 				}
+				// the flag: a variable of processHandlers, or the bool result of the
+				// private helper the wait was moved into
+				var flagPhis []*ssa.Phi
 				if ph2, ok := v.(*ssa.Phi); ok {
+					flagPhis = append(flagPhis, ph2)
+				}
+				if ex, ok := v.(*ssa.Extract); ok {
+					if hc, ok := ex.Tuple.(*ssa.Call); ok {
+						if cal := hc.Call.StaticCallee(); cal != nil && len(cal.Blocks) > 0 && c.hostedBy(cal, ph) {
+							for _, hr := range returnsOf(cal) {
+								if ex.Index < len(retVals(hr)) {
+									if p3, ok := retVals(hr)[ex.Index].(*ssa.Phi); ok {
+										flagPhis = append(flagPhis, p3)
+									}
+								}
+							}
+						}
+					}
+				}
+				for _, ph2 := range flagPhis {
 					for ei, e := range ph2.Edges {
 						if b, ok := constBool(e); ok && b {
 							pred := ph2.Block().Preds[ei]
